@@ -27,7 +27,8 @@ def alias_of(node):
     a = getattr(node, 'alias', None)
     if a is None:
         return ''
-    return '.'.join(ident_parts(a)) if _name(a) == 'Identifier' else str(a)
+    # an alias is ONE name; a several-part alias (only a defect produces one) must not look like a one-part name with dots
+    return '\u241f'.join(ident_parts(a)) if _name(a) == 'Identifier' else str(a)
 
 
 def expr(node, opts=None):
